@@ -74,6 +74,9 @@ package transactions
 //@   assigns closed(t.done), calls(t.finally)
 //@   ensures [C18] closes: closed(t.done)
 //@   ensures [C18] finally_once: calls(t.finally) == old(calls(t.finally)) + ite(t.finally == nil, 0, 1)
+// an observer of Done() never sees a finished exchange whose completion callback has not run yet:
+// at the moment the channel is closed the callback has already been invoked
+//@   at close.0 before assert [C18] callback_ran_before_done: calls(t.finally) == old(calls(t.finally)) + ite(t.finally == nil, 0, 1)
 
 //@ func (*TransactionBase).Success
 //@   nopanic [C18]
